@@ -63,7 +63,19 @@ pub fn server_message(op: &Op) -> Option<(RMsg, u32, u32)> {
         Op::Audio { msid, ts, data } => (RMsg::Audio(data.clone()), *msid, *ts),
         Op::Video { msid, ts, data } => (RMsg::Video(data.clone()), *msid, *ts),
         Op::OnMetaData { msid } => (RMsg::Data(vec![amf::s("onMetaData"), amf::obj(vec![("width", amf::num(320.0))])]), *msid, 0),
-        Op::Ping { ts } => (RMsg::UserControl(6, vec![*ts]), 0, 0),
+        Op::Ping { ts, msid } => (RMsg::UserControl(6, vec![*ts]), *msid, 0),
+        Op::Control { kind, n, msid } => (
+            match kind {
+                0 => RMsg::Abort(*n),
+                1 => RMsg::SetPeerBw(*n, (*n % 3) as u8),
+                2 => RMsg::UserControl(1, vec![*n]),
+                3 => RMsg::UserControl(2, vec![*n]),
+                4 => RMsg::UserControl(4, vec![*n]),
+                _ => RMsg::UserControl(3, vec![*n, 1000]),
+            },
+            *msid,
+            0,
+        ),
         Op::PingResponse { ts } => (RMsg::UserControl(7, vec![*ts]), 0, 0),
         Op::Ack { n } => (RMsg::Ack(*n), 0, 0),
         Op::SetChunkSize { n } => (RMsg::SetChunkSize(*n), 0, 0),
@@ -244,7 +256,21 @@ pub fn resolve(sym: Sym, m: &Model, rng: &mut Rng, step: usize) -> Op {
             Op::Video { msid: sel_msid(m, s), ts, data }
         }
         Sym::OnMetaData(s) => Op::OnMetaData { msid: sel_msid(m, s) },
-        Sym::Ping => Op::Ping { ts: rng.u32_boundary() },
+        Sym::Ping => {
+            // one ping in four names a message stream other than 0; one in four is instead another
+            // control message carrying the active stream id, an outstanding transaction id or a small number
+            let active = m.active_stream.unwrap_or(5);
+            if rng.chance(1, 4) {
+                let n = match rng.below(3) {
+                    0 => active,
+                    1 => m.outstanding.keys().next().cloned().unwrap_or(1),
+                    _ => rng.below(4) as u32,
+                };
+                Op::Control { kind: rng.below(6) as u8, n, msid: if rng.chance(1, 4) { active } else { 0 } }
+            } else {
+                Op::Ping { ts: rng.u32_boundary(), msid: if rng.chance(1, 3) { *rng.pick(&[active, 1, active + 1]) } else { 0 } }
+            }
+        }
         Sym::PingResponse => Op::PingResponse { ts: rng.u32_boundary() },
         Sym::Ack => Op::Ack { n: rng.u32_boundary() },
         Sym::SetChunkSize => Op::SetChunkSize { n: *rng.pick(&[128u32, 4096, 1, 60000]) },
@@ -486,7 +512,8 @@ impl Check for C10 {
         // "many of the same" mode: one symbol repeated 129..1100 times (tables with a cap, counters
         // with a limit), then the oldest createStream is answered and the walk goes on
         let burst: Option<(usize, usize, Sym)> = if rng.chance(1, 60) {
-            let n = *rng.pick(&[129usize, 130, 200, 257, 300, 1025, 1100]);
+            // (1 burst in 60: more than 65,536 repetitions)
+            let n = if rng.chance(1, 60) { *rng.pick(&[65_537usize, 66_000]) } else { *rng.pick(&[129usize, 130, 200, 257, 300, 1025, 1100]) };
             let sym = *rng.pick(&[Sym::RequestPlayback, Sym::RequestPublishing, Sym::RequestPlayback, Sym::Ping, Sym::SendPing, Sym::Result(TxSel::Unknown, 0), Sym::Audio(MsidSel::Active)]);
             Some((rng.usize(2, 8), n, sym))
         } else {
@@ -516,7 +543,7 @@ impl Check for C10 {
         run_history(&mut it, rng, out);
     }
     fn rule(&self) -> String {
-        "histories over application calls {request_connection, request_playback, request_publishing, stop_playback, stop_publishing, publish_metadata/video/audio, send_ping_request} and server messages encoded by the independent encoder {_result / _error with the current connect, the current createStream, an already answered, a never issued, 0, 2^32-1, an outstanding id plus or minus a fraction, plus 2^32, negated, and NaN as transaction id, with / without / with a non-numeric stream id; onStatus Play.Start, Publish.Start, unknown codes, missing/ill-typed arguments; audio/video/onMetaData on the active stream, another stream, stream 0; ping request/response, acknowledgement, stream begin, set chunk size}. Random walks of 5-80 steps (1 in 40 of 200-400; 1 in 60 with a burst of 129-1100 repetitions of one symbol after connect, then an answer to the oldest createStream; one third of the steps biased towards progress, the rest uniform: duplicates, out-of-order and stale answers), plus all sequences of length 5 (thorough 6) over a 14-symbol reduced alphabet, and all sequences of the same length over a second 14-symbol alphabet (answers to createStream: current, stale, unknown, refused; both activities; media on the active and another stream) run after the fixed prefix request_connection, connect result. After every step events, decoded emitted commands/media/pings, emitted byte count and Ok/Err are compared with model::client. distinct = hash of the (model state class, symbol) sequence.".to_string()
+        "histories over application calls {request_connection, request_playback, request_publishing, stop_playback, stop_publishing, publish_metadata/video/audio, send_ping_request} and server messages encoded by the independent encoder {_result / _error with the current connect, the current createStream, an already answered, a never issued, 0, 2^32-1, an outstanding id plus or minus a fraction, plus 2^32, negated, and NaN as transaction id, with / without / with a non-numeric stream id; onStatus Play.Start, Publish.Start, unknown codes, missing/ill-typed arguments; audio/video/onMetaData on the active stream, another stream, stream 0; ping request/response, acknowledgement, stream begin, set chunk size}. Random walks of 5-80 steps (1 in 40 of 200-400; 1 in 60 with a burst of 129-1100 (1 in 60 of them: 65,537 or 66,000) repetitions of one symbol after connect, then an answer to the oldest createStream; one third of the steps biased towards progress, the rest uniform: duplicates, out-of-order and stale answers), plus all sequences of length 5 (thorough 6) over a 14-symbol reduced alphabet, and all sequences of the same length over a second 14-symbol alphabet (answers to createStream: current, stale, unknown, refused; both activities; media on the active and another stream) run after the fixed prefix request_connection, connect result. After every step events, decoded emitted commands/media/pings, emitted byte count and Ok/Err are compared with model::client. distinct = hash of the (model state class, symbol) sequence.".to_string()
     }
     fn assumptions(&self) -> Vec<String> {
         vec![
